@@ -189,7 +189,10 @@ def finalizeMessage (env : Env) (m : Msg) : M Unit := do
         stateSet st_ACTIVE
       else pure ()
     else pure ()
-    M.modify fun c => { c with lastTime := env.now }
+    let c' ← M.get
+    -- fix 5623bd4: the receive time is stamped only while connected
+    if c'.state > st_DISCONNECTED_BROKEN_CONN then M.modify fun c => { c with lastTime := env.now }
+    else pure ()
     persistInbound m
 
 /-- `_process_testrequest` (l.749-761): Heartbeat echoing TestReqID (`0` when the request has none) -/
